@@ -17,7 +17,7 @@ RULE = (
     "ordered by key and a permutation of the rows). non-trivial = the grid point's physical plan has a different expression-class multiset (reductions: a different number of tasks) than the default configuration's; distinct by (query, knobs)"
 )
 ASSUMPTIONS = ["p2p unreachable", "float tolerance rtol=1e-9 for mean/var"]
-BUDGET_S = {"quick": 170, "thorough": 3000}
+BUDGET_S = {"quick": 170, "thorough": 900}
 
 
 def _h(x):
